@@ -224,6 +224,45 @@ class RsSide:
         return w.run()
 
 
+CONVERSIONS = {"into", "try_into", "unwrap", "index", "index_as_u32", "to_bits", "to_u32", "clone", "as_ref",
+               "expect", "len", "from"}
+
+
+def expr_idents(e, out=None):
+    """identifiers naming the operand: locals, fields, accessor methods (conversions dropped)"""
+    if out is None:
+        out = []
+    if not is_node(e):
+        return out
+    k = e[0]
+    if k == "local":
+        out.append(e[1])
+    elif k == "field":
+        expr_idents(e[1], out)
+        out.append(e[2])
+    elif k == "mcall":
+        expr_idents(e[4], out)
+        if e[3] not in CONVERSIONS:
+            out.append(e[3])
+        for a in e[5]:
+            if not (is_node(a) and a[0] == "closure"):
+                expr_idents(a, out)
+    elif k == "call":
+        for a in e[3]:
+            expr_idents(a, out)
+    elif k in ("lit", "def", "closure"):
+        pass
+    else:
+        for ch in e[1:]:
+            if is_node(ch):
+                expr_idents(ch, out)
+            elif isinstance(ch, list):
+                for x in ch:
+                    if is_node(x):
+                        expr_idents(x, out)
+    return out
+
+
 def hirq_core_num(path):
     m = re.match(r"^core::num::<impl ([ui])(8|16|32|64|128|size)>::(MAX|MIN)$", path or "")
     if not m:
@@ -285,12 +324,12 @@ class Walk:
             for _f, p in pat[2]:
                 self.bind(p, NONE, env)
 
-    def emit_prim(self, out, w, cls, arg, line, note=None):
+    def emit_prim(self, out, w, cls, arg, line, note=None, names=None):
         const = arg.const if arg is not None else None
         if cls == "bool" and const is not None:
             const = (int(bool(const[0])), const[1] or ("true" if const[0] else "false"))
         p = IR.prim(w, cls, const=const, note=note or (arg.note if arg is not None else None), line=line,
-                    lenof=arg.lenof if arg is not None else None)
+                    lenof=arg.lenof if arg is not None else None, names=names or ())
         out.append(p)
         if arg is not None and arg.table:
             arms = [{"vals": [(r["value"], r["cname"])] if r.get("value") is not None else [],
@@ -382,6 +421,8 @@ class Walk:
         if e[3] is not None and self.mentions_stream(e[3]):
             out.append(IR.opaque("let-else touching the stream", e[4] if len(e) > 4 else None))
         self.bind(e[1], v, env)
+        if v.prim and self.side == "r" and is_node(e[1]) and e[1][0] == "pbind":
+            IR.add_name(v.prim, e[1][1])
         return NONE
 
     def ev_letx(self, e, env, out):
@@ -424,7 +465,9 @@ class Walk:
 
     def ev_struct(self, e, env, out):
         for _f, x in e[2]:
-            self.ev(x, env, out)
+            fv = self.ev(x, env, out)
+            if fv.prim and self.side == "r":
+                IR.add_name(fv.prim, _f)
         if e[3] is not None:
             self.ev(e[3], env, out)
         p = def_path(e[1])
@@ -494,7 +537,8 @@ class Walk:
             if ms[0] == "prim":
                 arg = avs[0] if avs else None
                 note = hirq.render(args[0])[:60] if args else name
-                p = self.emit_prim(out, ms[1], ms[2], arg, line, note=note)
+                names = expr_idents(args[0]) if (args and self.side == "w") else None
+                p = self.emit_prim(out, ms[1], ms[2], arg, line, note=note, names=names)
                 if ms[3]:
                     self.has_assert = True
                 return Val(prim=p["id"], isbool=(ms[2] == "bool"), note=name)
